@@ -142,6 +142,10 @@ func checkC16(w *World, r *Report) {
 	if r.importRules(w, func(t *Report) { e1(w, t); e2(w, t) }, "F-6", "E-1", "E-2") < 8 {
 		r.Undecided("F-6", "evm-bridge", "the EVM/native-ledger synchronisation rules (C17 E-1, E-2) matched fewer than 8 constructs")
 	}
+	// F-7: the decision table's "receiver has code" input is the same at routing and
+	// at the fee step (C04 N-9)
+	codeMarkerStable(w, r, "F-7")
+	r.Floor("F-7", 3, "code marker writers")
 	r.Floor("F-1", 6, "admission guards")
 	r.Floor("F-2", 18, "decision table rows")
 	r.Floor("F-3", 4, "EVM charge")
@@ -250,9 +254,17 @@ func f3(w *World, r *Report) {
 		}
 		r.Check(ok, "F-3", "ExecuteTrx:gas-and-price", "execVM receives the transaction's gas limit and the governance gas price", "execVM is not given (Tx.Gas, GovHandler.GasPrice())", fnSite(w, ex))
 		okU := false
-		for _, fs := range w.fieldStores(ex) {
-			if fs.Field.Name() == "GasUsed" && res != nil && w.Canon(fs.Val) == w.Canon(res)+".UsedGas" {
-				okU = true
+		// in ExecuteTrx or in a helper it hands the result to (read in ExecuteTrx's terms)
+		if res != nil {
+			wantU := w.Canon(res) + ".UsedGas"
+			for _, hf := range w.withModuleCallees(ex, 2) {
+				for _, fs := range w.fieldStores(hf) {
+					if fs.Field.Name() == "GasUsed" && fs.Owner != nil && fs.Owner.Obj().Name() == "TrxContext" && w.inCallerTerms(ex, hf, func() bool {
+						return w.Canon(fs.Val) == wantU && w.Canon(fs.Addr) == "p0.GasUsed"
+					}) {
+						okU = true
+					}
+				}
 			}
 		}
 		r.Check(okU, "F-3", "ExecuteTrx:GasUsed", "GasUsed is the execution result's UsedGas", "ctx.GasUsed is not set from the EVM execution result", fnSite(w, ex))
